@@ -234,3 +234,47 @@ def declare_shift_end(spec):
             ("C12:no-service-is-touched", "same('cust', 'busy', 'service_start_date', 'service_end_date', 'number_in_service')"),
         ],
         props=["C12"])
+
+
+def declare_interrupt(spec):
+    """interrupting a service at a pre-emptive shift end / slot (C12, C11, C02)"""
+    IND = "obj:Individual"
+    add(spec, "Node.interrupt_service", types={"individual": IND},
+        requires=[INV("shape(self)"), INV("net_ok(self)"), INV("float_clock(self)"), "is_fin(self.now)",
+                  "is_obj(self.schedule, 'Schedule')",
+                  "as_obj(self.schedule, 'Schedule').preemption == 'resume' or as_obj(self.schedule, 'Schedule').preemption == 'restart' "
+                  "or as_obj(self.schedule, 'Schedule').preemption == 'resample'",
+                  # scope: the 're-route' option (the customer is sent away through release, an unbounded cascade) is not under contract
+                  ("C12:the-customer-is-in-service-here-possibly-blocked-after-its-service",
+                   "ref_eq(loc(individual), self) and is_time(individual.service_start_date) and is_fin(individual.service_start_date) "
+                   "and is_time(individual.service_end_date) and is_fin(individual.service_end_date) and is_time(individual.arrival_date) and is_fin(individual.arrival_date) "
+                   "and individual.arrival_date <= individual.service_start_date and individual.service_start_date <= individual.service_end_date "
+                   "and individual.service_start_date <= self.now and implies(not individual.is_blocked, self.now <= individual.service_end_date) "
+                   "and not individual.interrupted and cls_ok(self, individual) "
+                   "and implies(not self.slotted, is_obj(individual.server, 'Server'))"),
+                  "len(self.interrupted_individuals) >= 0"],
+        allocates=True, raises=[("ValueError", "True")],
+
+        modifies=[f + "@individual" for f in ["original_service_time", "interrupted", "original_service_start_date", "service_start_date", "time_left",
+                                              "service_time", "service_end_date"]]
+        + ["$seq@individual.data_records", "$seq@self.interrupted_individuals", "number_interrupted_individuals@self", "number_in_service@self"],
+        ensures=[
+            ("C12:interrupted-now-and-queued-for-restart",
+             "S(self.interrupted_individuals) == append1(old(S(self.interrupted_individuals)), individual) and individual.interrupted "
+             "and self.number_interrupted_individuals == old(self.number_interrupted_individuals) + 1 "
+             "and self.number_in_service == old(self.number_in_service) - 1 and individual.service_start_date is False and individual.service_end_date is False"),
+            ("C11+C12:the-interruption-is-recorded",
+             "len(individual.data_records) == old(len(individual.data_records)) + 1 "
+             "and individual.data_records[len(individual.data_records) - 1].record_type == 'interrupted service' "
+             "and individual.data_records[len(individual.data_records) - 1].node == self.id_number "
+             "and individual.data_records[len(individual.data_records) - 1].exit_date == self.now "
+             "and individual.data_records[len(individual.data_records) - 1].service_start_date == old(individual.service_start_date) "
+             "and individual.data_records[len(individual.data_records) - 1].service_time == old(individual.service_time)"),
+            ("C02+C12:the-time-still-to-serve-is-never-negative-and-is-what-was-left",
+             "is_fin(individual.time_left) and individual.time_left >= 0 "
+             "and implies(not individual.is_blocked, individual.time_left == old(individual.service_end_date) - self.now)"),
+            ("C11+C12:what-to-do-at-restart-is-remembered",
+             "individual.service_time == as_obj(self.schedule, 'Schedule').preemption and individual.original_service_time == old(individual.service_time) "
+             "and individual.original_service_start_date == old(individual.service_start_date)"),
+        ],
+        props=["C12", "C11", "C02"])
